@@ -703,4 +703,58 @@ def graphOf (m : GMeta) (context batch : Nat) : Nat × Nat :=
 def graphSize (m : GMeta) (context batch p kvct : Nat) : List Nat × Nat × Nat :=
   (kvOf m context batch p kvct, (graphOf m context batch).1, (graphOf m context batch).2)
 
+/-! ### `llm.projectorMemoryRequirements` (llm/memory.go) and `GGML.VisionGraphSize` (fs/ggml/ggml.go) -/
+
+/-- what the two functions read from a (projector or model) file -/
+structure VMeta where
+  mllama : Bool            -- general.architecture == "mllama"
+  gemmaLike : Bool         -- "gemma3" | "mistral3"            (VisionGraphSize only)
+  visionBlocks : Nat       -- <arch>.vision.block_count         (VisionGraphSize only)
+  tensorSizes : List Nat   -- Size() of the tensors that are summed: all of them (projector file); layers "v" / "v.*" (VisionGraphSize)
+  imageSize : Nat
+  patchSize : Nat
+  numChannels : Nat
+  maxNumTiles : Nat
+  embeddingLength : Nat
+  headCount : Nat
+  classEmbd : Bool         -- a tensor `v.class_embd` exists
+  deriving Repr
+
+/-- `(imageSize / patchSize) * (imageSize / patchSize)`, `+1` with a class embedding (patchSize ≠ 0) -/
+def numPatches (m : VMeta) : Nat :=
+  let n := (m.imageSize / m.patchSize) *ᵤ (m.imageSize / m.patchSize)
+  if m.classEmbd then n +ᵤ 1 else n
+
+/-- `numPatches + 8 - (numPatches%8)%8` (uint64) -/
+def paddedPatches (n : Nat) : Nat := subW (n +ᵤ 8) ((n % 8) % 8)
+
+def mllamaVisionGraph (m : VMeta) : Nat :=
+  let np := numPatches m
+  let pp := paddedPatches np
+  4 *ᵤ (8 +ᵤ m.imageSize *ᵤ m.imageSize *ᵤ m.numChannels *ᵤ m.maxNumTiles
+          +ᵤ m.embeddingLength *ᵤ np *ᵤ m.maxNumTiles
+          +ᵤ 9 *ᵤ m.embeddingLength *ᵤ pp *ᵤ m.maxNumTiles
+          +ᵤ pp *ᵤ m.maxNumTiles *ᵤ pp *ᵤ m.maxNumTiles *ᵤ m.headCount)
+
+/-- `projectorMemoryRequirements` on a decodable file: (weights, graphSize); `none` = the run-time panic
+    (integer division by a zero `vision.patch_size` in the mllama branch).  An unreadable file is (0, 0)
+    (handled by the caller of this function in the driver). -/
+def projReq (m : VMeta) : Option (Nat × Nat) :=
+  let w := accW 0 m.tensorSizes
+  if m.mllama then
+    if m.patchSize == 0 then none else some (w, mllamaVisionGraph m)
+  else some (w, 0)
+
+/-- `GGML.VisionGraphSize` -/
+def visionGraphSize (m : VMeta) : Nat × Nat :=
+  if m.visionBlocks == 0 then (0, 0)
+  else
+    let w := accW 0 m.tensorSizes
+    if m.patchSize == 0 then (w, 0)
+    else if m.mllama then (w, mllamaVisionGraph m)
+    else if m.gemmaLike then
+      let np := numPatches m
+      (w, 4 *ᵤ (m.imageSize *ᵤ m.imageSize *ᵤ m.numChannels +ᵤ m.embeddingLength *ᵤ m.patchSize +ᵤ np *ᵤ np *ᵤ m.headCount))
+    else (w, 0)
+
 end OllamaVerif.Memory
